@@ -564,7 +564,7 @@ def run(ctx):
 
     warnings.filterwarnings("ignore")
     TOL = 1e-9
-    N = ctx.n(3000, 200000)
+    N = ctx.n(3000, 64000)
     indices = range(ctx.shard, N * ctx.nshards, ctx.nshards)
     if ctx.only_case is not None:
         indices = [ctx.only_case]
